@@ -933,18 +933,31 @@ def small_sets_py(v):
     return not contains_big_set(v)
 
 
-def corr_guards(ctx, vals, name):
+def all_atoms_deep(v):
+    """all scalars of a value, composite dict keys included"""
+    if isinstance(v, (list, tuple, set, frozenset)):
+        for x in v:
+            yield from all_atoms_deep(x)
+    elif isinstance(v, dict):
+        for k, x in v.items():
+            yield from all_atoms_deep(k)
+            yield from all_atoms_deep(x)
+    else:
+        yield v
+
+
+def corr_guards(ctx, vals, name, pure_stride=1):
     """the guards of the theorems as computed in Coq == the harness's reading of them; also the
     distribution of the generated values with respect to each guard; and, for values inside the
     alias-free guard, hash_pure (the function the theorems are about) == the implementation's root hash"""
     cases = []
     pure = []
-    for v in vals:
+    for vi, v in enumerate(vals):
         g = [tag_safe_py(v), not values.contains_alias(v), small_sets_py(v), True, in_model_range(v)]
         for nm, b in zip(("tag_safe", "alias_free", "small_sets"), g):
             ctx.count("guard:%s:%s" % (nm, "in" if b else "out"))
         cases.append(("run_guards %s" % values.to_coq(v), g, {"value": repr(v), "check": "guards"}))
-        if g[1]:
+        if g[1] and vi % pure_stride == 0:     # (corr_single compares the same strings through hash_memo for every value)
             for o in MODES3:
                 if o[1] or g[2]:
                     pure.append(("run_pure %s %s" % (coq_opts(o), values.to_coq(v)), impl_hash(v, o, hexhasher)[0],
